@@ -496,6 +496,10 @@ func (mf *MultiFileAppendable) SetOffset(off int64) error {
 		return ErrReadOnly
 	}
 
+	if off < 0 {
+		return fmt.Errorf("%w: negative offset %d", ErrIllegalArguments, off)
+	}
+
 	currOffset := mf.offset()
 
 	if off > currOffset {
